@@ -855,6 +855,7 @@ def _native_replay_one(contract, I, o, model, repo):
                                  "args": [enc(x, memo) for x in c.get("args", [])],
                                  "kwargs": {k: enc(v, memo) for k, v in c.get("kwargs", {}).items()}} for c in a["calls"]]
             info["request"] = req
+            info["inputs"] = dict(S.recorded_inputs) if not isinstance(o.model, sp.RecordedModel) else dict(o.model.table)
             # comparisons closer than 1e-9 relative are 'borderline': a float-rounding-sized discrepancy never
             # confirms a violation (the counter-model itself is exact in R; the replay guards the encoding)
             sp.TOL[0] = (Fraction(1, 10 ** 9), Fraction(0))
